@@ -83,7 +83,7 @@ TLS struct mcount_thread_data mtd;
 int mcount_pfd = -1;
 
 /* maximum depth of mcount rstack */
-static int mcount_rstack_max = MCOUNT_RSTACK_MAX;
+int mcount_rstack_max = MCOUNT_RSTACK_MAX;
 
 /* name of main executable */
 char *mcount_exename;
@@ -822,7 +822,11 @@ static void segv_handler(int sig, siginfo_t *si, void *ctx)
 
 	mcount_rstack_restore(mtdp);
 
-	idx = mtdp->idx - 1;
+	/* idx can exceed the rstack (-finstrument-functions counts beyond it) */
+	idx = mtdp->idx;
+	if (idx > mcount_rstack_max)
+		idx = mcount_rstack_max;
+	idx--;
 	/* flush current rstack on crash */
 	rstack = &mtdp->rstack[idx];
 	record_trace_data(mtdp, rstack, NULL);
